@@ -36,7 +36,14 @@ def explore_cell(cell):
         return rh.run_protocol(cfg, prefix, mode=mode)
 
     best = {}
-    for prefix, ctl, obs in ex.explore(run_one, bound=bound, max_execs=max_execs):
+    if cell.get("por"):
+        def run_por(prefix, sleep_at):
+            return rh.run_protocol(cfg, prefix, mode=mode, sleep_at=sleep_at)
+
+        runs = ex.explore_por(run_por, max_execs=max_execs)
+    else:
+        runs = ex.explore(run_one, bound=bound, max_execs=max_execs)
+    for prefix, ctl, obs in runs:
         res["evaluations"] += 1
         res["traces"] += 1
         res["transitions"] += ctl.n_points
@@ -54,8 +61,23 @@ def explore_cell(cell):
         if not res["samples"] and pre >= 1:
             res["samples"].append({"cfg": cfg, "mode": mode, "schedule": list(ctl.choices), "preemptions": pre,
                                    "samplers": [repr(s) for s in obs["samplers"]], "log": [list(e) for e in obs["log"]]})
-    if ex.explore.capped:
+    if (ex.explore_por.capped if cell.get("por") else ex.explore.capped):
         res["caps_hit"] = [f"max_execs={max_execs} reached for shape {cfg['shape']} in mode {mode}"]
+    if cell.get("por"):
+        st["por_pruned_executions"] = ex.explore_por.pruned
+        st["por_cells"] = 1
+        if cell.get("crosscheck"):
+            # soundness cross-check of the reduction: the unreduced search over ALL interleavings must see the same outcomes and the same violation keys
+            outs2, keys2 = set(), set()
+            for _, ctl2, obs2 in ex.explore(run_one, bound=None, max_execs=60000):
+                outs2.add(rh.outcome(obs2))
+                keys2 |= {k for k, _ in rh.monitor(obs2)}
+                res["evaluations"] += 1
+                res["traces"] += 1
+                res["transitions"] += ctl2.n_points
+            st["por_crosschecked_cells"] = 1
+            if not ex.explore.capped and (outs2 != set(outcomes) or keys2 != set(best)):
+                return {"harness_error": f"partial-order reduction disagrees with the unreduced search for {cfg}: outcomes {len(outcomes)} vs {len(outs2)}, keys {sorted(best)} vs {sorted(keys2)}", "cell": cell}
     for key, (pre, what, choices) in best.items():
         res["violations"].append({"key": key, "what": f"{what} [cfg={cfg}, mode={mode}, preemptions={pre}]",
                                   "case": {"cfg": cfg, "mode": mode, "schedule": choices, "driver": cell.get("driver", "protocol")}})
@@ -65,7 +87,7 @@ def explore_cell(cell):
                                   "what": f"{len(outcomes)} different sampler/learn sequences depending on the schedule, e.g. {o1} vs {o2} [cfg={cfg}, mode={mode}]",
                                   "case": {"cfg": cfg, "mode": mode, "schedule": c1, "schedule2": c2, "driver": cell.get("driver", "protocol")}})
     st["configs"] = 1
-    st["configs_with_2+_schedules"] = 1 if res["evaluations"] >= 2 else 0
+    st["configs_with_2+_schedules"] = 1 if res["evaluations"] + st.get("por_pruned_executions", 0) >= 2 else 0
     res["states"] = len(states)
     res["outcomes"] = [(str(cfg["shape"]), cfg["losses"], str(cfg["agent"]), len(outcomes))]
     return res
@@ -107,11 +129,12 @@ def main(ctx):
             for ai, agent in enumerate(agents):
                 for samplers in (("with_halton", "without_halton") if ai % 2 == 0 else ("with_halton",)):
                     cfg = {"shape": shape, "losses": losses, "agent": agent, "samplers": samplers}
-                    full = shape in ([1], [2]) or (not ctx.quick and shape in ([3], [1, 2], [2, 1]) and ai < 2) or (shape == [1, 1] and ai == 0 and (not ctx.quick or losses == "mixed"))
-                    if full:
-                        cells.append({"cfg": cfg, "mode": "sync", "bound": None, "max_execs": 40000})
-                    else:
-                        cells.append({"cfg": cfg, "mode": "sync", "bound": 3 if ctx.quick else 4, "max_execs": 40000})
+                    # (1) ALL interleavings modulo commutation of independent steps (sleep sets), every shape and configuration;
+                    #     for the two smallest shapes the unreduced search is run as well and must agree
+                    cells.append({"cfg": cfg, "mode": "sync", "bound": None, "max_execs": 60000, "por": True, "crosscheck": shape in ([1], [2]) and ai < 3})
+                    # (2) independence-assumption-free: unreduced search with a preemption bound on a slice of the configurations
+                    if ai % 4 == 0 and shape not in ([1], [2]):
+                        cells.append({"cfg": cfg, "mode": "sync", "bound": 2 if ctx.quick else 3, "max_execs": 40000})
     # Tier B: line granularity, fewer configurations
     tierb_shapes = [[1], [2], [1, 1], [2, 2]] if ctx.quick else [[1], [2], [1, 1], [1, 2], [2, 1], [2, 2], [3], [2, 2, 2], [3, 3]]
     for shape in tierb_shapes:
@@ -124,13 +147,14 @@ def main(ctx):
         for agent in ({"kind": "scripted", "script": [1, 0, 1]}, {"kind": "eps", "eps": 0.5, "seed": S, "alpha": 0.5}):
             for samplers in ("with_halton", "without_halton"):
                 cells.append({"cfg": {"shape": shape, "losses": "real", "agent": agent, "samplers": samplers, "seed": S}, "mode": "sync", "bound": 1 if ctx.quick else 2, "max_execs": 4000, "driver": "calibrator"})
-    ctx.bounds = {"shapes": shapes, "second_driver": "real Calibrator.calibrate on [2],[1,2],[2,2] (thorough: 7 shapes), preemption bound " + ("1" if ctx.quick else "2"), "tierA": "all interleavings for shapes [1], [2] (every configuration) and [1,1] (one per loss script; thorough also [3],[1,2],[2,1]), else preemption bound " + ("3" if ctx.quick else "4"),
+    ctx.bounds = {"shapes": shapes, "second_driver": "real Calibrator.calibrate on [2],[1,2],[2,2] (thorough: 7 shapes), preemption bound " + ("1" if ctx.quick else "2"), "tierA": "ALL interleavings modulo commutation of independent steps (sleep-set reduction) for every shape and configuration; unreduced all-interleavings cross-check on shapes [1],[2]; unreduced search with preemption bound " + ("2" if ctx.quick else "3") + " on every fourth configuration of the larger shapes",
                   "tierB_shapes": tierb_shapes, "tierB_preemption_bound": "1" if ctx.quick else "2 (1 for > 4 batches)",
                   "agents": "all scripted action sequences over {0,1} (length <= 3 quick / 4 thorough) + eps-greedy eps {0,.5} seeds {S,S+1}",
                   "loss_scripts": list(rh.LOSS_SCRIPTS), "sampler_sets": ["with_halton", "without_halton"], "cells": len(cells)}
     ctx.rule = ("stateless DFS over schedules of the real two-thread exchange; evaluations = complete executions, each checked by the reference monitor; "
                 "non-trivial = execution with >= 1 preemption; states = distinct canonical snapshots (reporting only, never used to prune)")
     ctx.assumptions = ["scheduling points: queue ops, thread start/join/exit, _stopped and _curr_best_loss accesses (Tier A); every line in black_it/schedulers (Tier B)",
+                       "sleep-set reduction: operations on different queues, reads of a shared attribute and accesses to different attributes commute; everything a thread does between two scheduling points touches only thread-local state or state behind one of the points (Tier B, which assumes nothing of the kind, explores with a preemption bound)",
                        "bytecode-level interleavings inside one source line are not explored"]
     cells.sort(key=lambda c: -(sum(c["cfg"]["shape"]) * (50 if c["mode"] == "line" else 1)))
     try:
@@ -138,6 +162,7 @@ def main(ctx):
     except rh.HarnessBroken as e:
         raise HarnessError(str(e)) from e
     ctx.require(ctx.nontrivial > 100, "too few executions with a preemption")
+    ctx.require(ctx.stats.get("por_crosschecked_cells", 0) > 0, "the reduction was never cross-checked against the unreduced search")
     ctx.require(ctx.stats.get("configs_with_2+_schedules", 0) == ctx.stats.get("configs", -1), "some configuration had a single schedule")
     multi = [o for o in ctx.outcomes if o[-1] != 1]
     ctx.extra["configs_with_more_than_one_outcome"] = len(multi)
